@@ -79,30 +79,49 @@ func prunedIdx(dag []Node, paths [][]int) map[int]bool {
 	return set
 }
 
+// posOf names a position of the tree: the reference indices from the root.
+func posOf(path []int) string {
+	pos := "root"
+	for _, k := range path {
+		pos += fmt.Sprintf("/%d", k)
+	}
+	return pos
+}
+
+// prunedPos: the pruned set of a cursor is a set of POSITIONS (a cell that
+// occurs at several positions is pruned only where Prune was called).
+func prunedPos(paths [][]int) map[string]bool {
+	set := map[string]bool{}
+	for _, p := range paths {
+		set[posOf(p)] = true
+	}
+	return set
+}
+
 // c18ExpectErr: pruneCells refuses Merkle cells it reaches (documented
 // limitation: an error, never a wrong proof).
-func c18ExpectErr(dag []Node, pruned map[int]bool) bool {
-	seen := map[int]bool{}
-	var walk func(i int) bool
-	walk = func(i int) bool {
-		if seen[i] {
+func c18ExpectErr(dag []Node, pruned map[string]bool) bool {
+	budget := 400000
+	var walk func(i int, pos string) bool
+	walk = func(i int, pos string) bool {
+		budget--
+		if budget < 0 {
 			return false
 		}
-		seen[i] = true
 		if isMerkleNode(dag[i]) {
 			return true
 		}
-		if pruned[i] {
+		if pruned[pos] {
 			return false
 		}
-		for _, r := range dag[i].Refs {
-			if walk(r) {
+		for k, r := range dag[i].Refs {
+			if walk(r, pos+fmt.Sprintf("/%d", k)) {
 				return true
 			}
 		}
 		return false
 	}
-	return walk(0)
+	return walk(0, "root")
 }
 
 func prunedBits(h []byte, d int) string {
@@ -114,7 +133,7 @@ func prunedBits(h []byte, d int) string {
 // c18CheckProof states the property on one proof of the implementation:
 // source (dag, root 0), the set of cells this operation pruned, proof bytes.
 // It returns the body of the proof (nil when it cannot be examined).
-func c18CheckProof(c *Ctx, kind string, in sx.V, tag string, src *c18Src, pruned map[int]bool, proof []byte) (body *boc.Cell) {
+func c18CheckProof(c *Ctx, kind string, in sx.V, tag string, src *c18Src, pruned map[string]bool, proof []byte) (body *boc.Cell) {
 	defer func() {
 		if r := recover(); r != nil {
 			c.Fail(kind, in, "oracle-panic", tag+fmt.Sprintf("examining the proof panicked: %v", r))
@@ -153,11 +172,7 @@ func c18CheckProof(c *Ctx, kind string, in sx.V, tag string, src *c18Src, pruned
 	// depth_0 of the subtree it replaces (mask 1, no references); every other
 	// cell keeps type, data and reference count, its mask is its own OR-ed
 	// with its children's.
-	type pair struct {
-		i int
-		q *boc.Cell
-	}
-	seen := map[pair]bool{}
+	budget := 400000
 	fails := 0
 	fail := func(key, what string) {
 		if fails < 3 {
@@ -167,10 +182,10 @@ func c18CheckProof(c *Ctx, kind string, in sx.V, tag string, src *c18Src, pruned
 	}
 	var walk func(i int, q *boc.Cell, pos string)
 	walk = func(i int, q *boc.Cell, pos string) {
-		if seen[pair{i, q}] || fails > 0 {
+		budget--
+		if budget < 0 || fails > 0 {
 			return
 		}
-		seen[pair{i, q}] = true
 		n := src.dag[i]
 		if isMerkleNode(n) {
 			fail("merkle-in-proof", "a proof was produced although a Merkle cell of the source is reached at "+pos)
@@ -178,7 +193,7 @@ func c18CheckProof(c *Ctx, kind string, in sx.V, tag string, src *c18Src, pruned
 		}
 		rb := q.RawBitString()
 		qbits := bitsOf(&rb)
-		if pruned[i] {
+		if pruned[pos] {
 			h, d, ok := src.level0(i)
 			if !ok {
 				return
@@ -269,35 +284,45 @@ func readLabel(bits string, m int) (lab string, rest string, ok bool) {
 // c18KeyWalk walks the SOURCE dictionary along the key: the siblings of the
 // forks on the path (what a proof for this key prunes), whether the key is
 // spelled by ordinary cells only, and its 32-bit value.
-func c18KeyWalk(dag []Node, key string) (pruned map[int]bool, found bool, val string) {
-	pruned = map[int]bool{}
+func c18KeyWalk(dag []Node, key string) (pruned map[string]bool, found bool, val string) {
+	pruned, _, found, val = c18KeyWalk2(dag, key)
+	return
+}
+
+// c18KeyWalk2 also returns the siblings as cells (indices of the DAG).
+func c18KeyWalk2(dag []Node, key string) (pruned map[string]bool, sibs map[int]bool, found bool, val string) {
+	pruned = map[string]bool{}
+	sibs = map[int]bool{}
 	cur := 0
+	pos := "root"
 	rem := key
 	for steps := 0; steps < 1100; steps++ {
 		n := dag[cur]
 		if n.Special {
-			return pruned, false, ""
+			return pruned, sibs, false, ""
 		}
 		lab, rest, ok := readLabel(n.Bits, len(rem))
 		if !ok || len(lab) > len(rem) || !strings.HasPrefix(rem, lab) {
-			return pruned, false, ""
+			return pruned, sibs, false, ""
 		}
 		rem = rem[len(lab):]
 		if rem == "" {
 			if len(rest) < 32 {
-				return pruned, false, ""
+				return pruned, sibs, false, ""
 			}
-			return pruned, true, rest[:32]
+			return pruned, sibs, true, rest[:32]
 		}
 		if len(n.Refs) != 2 {
-			return pruned, false, ""
+			return pruned, sibs, false, ""
 		}
 		b := int(rem[0] - '0')
-		pruned[n.Refs[1-b]] = true
+		pruned[pos+fmt.Sprintf("/%d", 1-b)] = true
+		sibs[n.Refs[1-b]] = true
+		pos += fmt.Sprintf("/%d", b)
 		cur = n.Refs[b]
 		rem = rem[1:]
 	}
-	return pruned, false, ""
+	return pruned, sibs, false, ""
 }
 
 // the value for the key can be decoded from the proof body
@@ -357,7 +382,7 @@ func c18WalkOracle(c *Ctx, kind string, in sx.V, tag string, src *c18Src, paths 
 	if _, _, ok := src.level0(0); !ok {
 		return // the source itself is refused by NewMerkleProver (depth)
 	}
-	pruned := prunedIdx(src.dag, paths)
+	pruned := prunedPos(paths)
 	if c18ExpectErr(src.dag, pruned) {
 		if out.K == sx.KBytes {
 			c.Fail(kind, in, "merkle-in-proof", tag+"a proof was produced although pruning reaches a Merkle cell of the source")
